@@ -41,6 +41,8 @@ func (o argOp) wire() W {
 func runArgOps(isArgs bool, ops []argOp) W {
 	return safe(func() W {
 		var status []W
+		var aclones []*args.Args
+		var mclones []*meta.Meta
 		if isArgs {
 			a := args.New()
 			for _, o := range ops {
@@ -59,6 +61,7 @@ func runArgOps(isArgs bool, ops []argOp) W {
 					status = append(status, WBool(cl.Add(o.key, o.val) == nil))
 					ro := a.ReadOnly().WriteableClone()
 					_ = ro.Add(o.key+"-2", o.val)
+					aclones = append(aclones, cl)
 				}
 			}
 			var es []W
@@ -71,7 +74,16 @@ func runArgOps(isArgs bool, ops []argOp) W {
 				ip = WNode(n)
 			}
 			eq := a.Equals(a.Clone()) && a.ReadOnly().Equals(a.Clone().ReadOnly())
-			return WList(WList(status...), WList(es...), ip, WBool(eq))
+			// every clone taken on the way still holds what it held (its own entries, in its own order)
+			var cls []W
+			for _, cl := range aclones {
+				var ce []W
+				for k, v := range cl.Iter() {
+					ce = append(ce, WList(WStr(k), WNode(v)))
+				}
+				cls = append(cls, WList(ce...))
+			}
+			return WList(WList(status...), WList(es...), ip, WBool(eq), WList(cls...))
 		}
 		m := meta.NewMeta()
 		for _, o := range ops {
@@ -90,6 +102,7 @@ func runArgOps(isArgs bool, ops []argOp) W {
 				status = append(status, WBool(cl.Add(o.key, o.val) == nil))
 				ro := m.ReadOnly().WriteableClone()
 				_ = ro.Add(o.key+"-2", o.val)
+				mclones = append(mclones, cl)
 			}
 		}
 		var es []W
@@ -97,7 +110,15 @@ func runArgOps(isArgs bool, ops []argOp) W {
 			es = append(es, WList(WStr(k), WNode(v)))
 		}
 		eq := m.Equals(m.Clone()) && m.ReadOnly().Equals(m.Clone().ReadOnly())
-		return WList(WList(status...), WList(es...), WNull, WBool(eq))
+		var cls []W
+		for _, cl := range mclones {
+			var ce []W
+			for k, v := range cl.Iter() {
+				ce = append(ce, WList(WStr(k), WNode(v)))
+			}
+			cls = append(cls, WList(ce...))
+		}
+		return WList(WList(status...), WList(es...), WNull, WBool(eq), WList(cls...))
 	})
 }
 
